@@ -146,11 +146,14 @@ def run_shard(spec, rec):
             rec.evaluations += len(chunk)
         rec.sample({"literals": [t for t, _, _ in items[:6]]}, limit=2)
     elif kind == "sequences":
-        pool = [chr(c) for c in list(range(0, 0x30)) + [0x5c, 0x7f, 0x80, 0xe9, 0x2028, 0xd7ff, 0xe000, 0xffff, 0x10000, 0x1f600, 0x10ffff]] + list("ab'\"/\\")
+        pool = [chr(c) for c in list(range(0, 0x30)) + [0x5c, 0x7f, 0x80, 0x85, 0x9f, 0xa0, 0xe9, 0x2028, 0xd7ff, 0xe000, 0xfeff, 0xfffe, 0xfffd, 0xffff, 0x10000, 0x1f600, 0x10ffff,
+                                                          0xfeff, 0xfffe, 0x1f600, 0x10000]] + list("ab'\"/\\")
         batch = []
         for _ in range(spec["n"]):
             q = R.choice("'\"")
             s = "".join(R.choice(pool) for _ in range(R.randint(0, 12)))
+            if R.random() < 0.1:
+                s = R.choice("\ufeff\ufffe") + s + R.choice("\U0001f600\U00010000")   # byte-order-mark look-alikes first, an astral character later
             body = []
             escaped = False
             for ch in s:
